@@ -1432,6 +1432,15 @@ func (r *run) checkConnect(m *Model) {
 			if nonAck > 0 {
 				r.viol("C11", "no-effect-before-connect", "C11/packets-sent-to-unaccepted/"+class, "connection %d was never accepted but the broker sent it %d packet(s) besides CONNACK, e.g. %s", c.Idx, nonAck, c.Down[len(c.Down)-1].P)
 			}
+			cto := int64(r.sc.Knobs.ConnectTimeout)
+			if cto == 0 {
+				cto = 2 // the library's default
+			}
+			if !closedByBroker && c.ClientEnded && c.EndVT-c.OpenVT > (cto*1000+500)*1e6 {
+				// the client gave up only well after the connect timeout: the
+				// broker had all that time to close the connection and did not
+				r.viol("C11", "closed", "C11/not-closed/"+class, "connection %d sent %s as its first packet and the broker had not closed it %.1f virtual seconds later, when the client gave up (connect timeout %d s)", c.Idx, describeFirst(c), float64(c.EndVT-c.OpenVT)/1e9, cto)
+			}
 			if !closedByBroker && !c.ClientEnded {
 				r.viol("C11", "closed", "C11/not-closed/"+class, "connection %d sent %s as its first packet and was still open at the end", c.Idx, describeFirst(c))
 			} else if !closedByBroker && c.EndKind == "final" {
